@@ -84,6 +84,7 @@ class Server:
         self.hs = False
         self.records = []        # ciphertext in flight to the client: [kind, plaintext length, bytes]
         self.eof = False         # the server closed its TCP side (after what is in flight)
+        self.closed_tx = self.closed_rx = False
         self.written = 0
 
     def _collect(self, kind, p=0):
@@ -112,9 +113,19 @@ class Server:
                 except (ssl.SSLWantReadError, ssl.SSLError):
                     break
                 if not d:
-                    self.log(event(ev="srvgot", res="close_notify"))
+                    if not self.closed_rx:
+                        self.closed_rx = True
+                        self.log(event(ev="srvgot", res="close_notify"))
                     break
                 self.log(event(ev="srvgot", res="data", n=len(d), data=list(d)))
+            if self.closed_tx and not self.closed_rx:
+                # our close_notify is out: a second unwrap() succeeds once the client's close_notify has arrived
+                try:
+                    self.obj.unwrap()
+                    self.closed_rx = True
+                    self.log(event(ev="srvgot", res="close_notify"))
+                except (ssl.SSLWantReadError, ssl.SSLError):
+                    pass
             self._collect("hs")
 
     # environment actions
@@ -129,6 +140,7 @@ class Server:
             self.obj.unwrap()
         except (ssl.SSLWantReadError, ssl.SSLError):
             pass
+        self.closed_tx = True
         self.log(event(ev="env", fn="close_notify"))
         self._collect("alert")
 
